@@ -27,7 +27,7 @@ def programs(tier, seed):
 JUMP = dict(ret='return', brk='break', cnt='continue')
 
 
-def edge_signature(p, a, b, pend=''):
+def edge_signature(p, a, b, pend='', jsrc=0):
     """Where the two nodes part in the tree, and what transfers control: the executed statement itself, or - when it
     is an ordinary statement of a finally block that a jump is passing through - that pending jump."""
     par = mpsig.parents(p)
@@ -41,6 +41,13 @@ def edge_signature(p, a, b, pend=''):
     k = mpsig.kind(p, a)
     if pend in JUMP and k not in JUMP.values():
         k = JUMP[pend]
+        # the jump started in an except handler and travels through the finally block of the same try: the edge into that
+        # block and the edge out of it (to the jump's target) are missing for one reason
+        if jsrc:
+            for kk, sec, q in mpsig.path(p, jsrc, par):
+                if kk == 'try' and sec == 'handler' and p['nodes'][q - 1]['final'] and (
+                        mpsig.in_section(p, a, q, 'finally', par) or (b and mpsig.in_section(p, b, q, 'finally', par))):
+                    return 'c05:edge:%s@try.handler->try.finally' % k
     return 'c05:edge:%s@%s->%s' % (k, ea, eb)
 
 
@@ -50,7 +57,7 @@ def classify(p, bad):
     rest = [x.strip().strip('"') for x in m.group(3).split(',')]
     if kind == 'edge':
         a, b = int(rest[0]), int(rest[1])
-        return edge_signature(p, a, b, rest[2] if len(rest) > 2 else ''), 'executed transfer %s(node %d) -> %s(node %d) is not an edge of the graph' % (
+        return edge_signature(p, a, b, rest[2] if len(rest) > 2 else '', int(rest[3]) if len(rest) > 3 else 0), 'executed transfer %s(node %d) -> %s(node %d) is not an edge of the graph' % (
             mpsig.kind(p, a), a, mpsig.kind(p, b), b)
     if kind == 'exit':
         a = int(rest[0])
